@@ -75,7 +75,7 @@ CHECKS = {
    note="as C04"),
  "C15": dict(
    category="translation_validation",
-   text="the C implementation of /repo/c is built from the working tree on every run; for generated tables (NUL-free) Go writes / C reads and C writes / Go reads, every scan, seek and RefsFor compared with the records written; every C-written file is judged by the extracted Coq spec decoder and read by the model reader (= what the Go reader must return). Stack directories in both directions: the C stack opens and scans directories the Go stack wrote (histories with Additions and compactions), the Go stack opens and scans directories the C stack wrote (adds with C's own auto-compaction, compact_all); the views must equal each other and the view the Coq stack model computes. Found and fixed 9 defects of the C twin",
+   text="the C implementation of /repo/c is built from the working tree on every run; for generated tables (NUL-free) Go writes / C reads and C writes / Go reads, every scan, seek and RefsFor compared with the records written; every C-written file is judged by the extracted Coq spec decoder and read by the model reader (= what the Go reader must return). Stack directories in both directions: the C stack opens and scans directories the Go stack wrote (histories with Additions and compactions), the Go stack opens and scans directories the C stack wrote (adds with C's own auto-compaction, compact_all); the views must equal each other and the view the Coq stack model computes. Found and fixed 16 defects of the C twin",
    design="6/C15", technique="differential + translation validation with the extracted Coq spec decoder as judge",
    note="the C code is not modelled in Coq (no C semantics available in this sandbox): its behaviour is compared, not proved; for stack directories the view is compared, not the table layout"),
  "C19": dict(
